@@ -379,6 +379,32 @@ def desugar_option_map(body, recv, item):
     return body[:mm.start()] + new + body[close + 1:]
 
 
+def desugar_map_collect(body, recv, ty, inv, item):
+    """`recv.into_iter().map(|p| e).collect()` -> explicit loop pushing `e` for every element, in order."""
+    m = mask(body)
+    pat = re.compile(re.escape(recv) + r"\s*\.into_iter\(\)\s*\.map\s*\(\s*\|([^|]*)\|")
+    ms = list(pat.finditer(m))
+    if len(ms) != 1:
+        raise AnchorLost("%s: `%s.into_iter().map(|..| ..)` found %d times" % (item.ident, recv, len(ms)))
+    mm = ms[0]
+    par = m.find("(", m.find(".map", mm.start()))
+    s2 = Src("<mem>", body)
+    close = s2.match_close(par)
+    tail = re.match(r"\s*\.collect\(\)", m[close + 1:])
+    if not tail:
+        raise AnchorLost("%s: map(..) is not followed by .collect()" % item.ident)
+    param = body[mm.start(1):mm.end(1)].strip()
+    expr = body[mm.end():close].strip()
+    cl = count_clauses(inv)
+    for k in cl:
+        item.clauses[k] += cl[k]
+    item.carrying += cl["invariant"]
+    new = ("{ let mut verif_out: Vec<%s> = Vec::new(); for %s in verif_it: %s\n%s\n{ verif_out.push(%s); } verif_out }"
+           % (ty, param, recv, inv, expr))
+    item.rewrites.append({"old": body[mm.start():close + 1 + tail.end()], "new": "explicit loop", "note": "std-equivalent: Vec into_iter().map(closure).collect() desugared to the loop it denotes"})
+    return body[:mm.start()] + new + body[close + 1 + tail.end():]
+
+
 def apply_befores(body, befores, item):
     """Insert proof scaffolding text before the unique occurrence of an anchor text."""
     for anchor, txt in befores:
@@ -513,6 +539,8 @@ def render_fn(s, loc, contract, opts, item, indent=""):
             if n_ == 0:
                 raise AnchorLost("%s: pattern %r not found" % (item.ident, rx_))
             item.rewrites.append({"old": "regex " + rx_, "new": rep_, "note": "std-equivalent (%d occurrences): %s" % (n_, note_)})
+        for recv_, ty_, inv_ in opts.get("map_collects", []):
+            body = desugar_map_collect(body, recv_, ty_, inv_, item)
         for recv in opts.get("desugars", []):
             body = desugar_option_map(body, recv, item)
         for bind, ty in opts.get("annotates", []):
@@ -784,6 +812,8 @@ class Gen:
         annotates = []
         rewrites_all = []
         rewrites_rx = []
+        map_collects = []
+        mc_args = None
         desugars = []
         places = {}
         anchor = None
@@ -866,6 +896,21 @@ class Gen:
                     annotates.append((toks[1], toks[2]))
                     i += 1
                     continue
+                if d == "desugar_map_collect":
+                    # //@desugar_map_collect <recv> <ElemType> ; raw lines up to //@enddesugar = invariant of the generated loop
+                    # `<recv>.into_iter().map(|p| body).collect()` -> `{ let mut verif_out: Vec<T> = Vec::new();
+                    #     for p in verif_it: <recv> invariant .. { verif_out.push(body); } verif_out }`  (definition of map/collect on Vec)
+                    mode = "mapcollect"
+                    mc_args = (toks[1], toks[2])
+                    new = []
+                    i += 1
+                    continue
+                if mode == "mapcollect" and d == "enddesugar":
+                    map_collects.append((mc_args[0], mc_args[1], "\n".join(new)))
+                    new = []
+                    mode = None
+                    i += 1
+                    continue
                 if d == "desugar_result_map":
                     # `<recv>.map(|p| body)` on a Result -> `match <recv> { Ok(p) => Ok(body), Err(verif_e) => Err(verif_e) }`
                     desugars.append("result:" + toks[1])
@@ -886,14 +931,14 @@ class Gen:
                 raise SystemExit("unexpected directive %r inside block (%s)" % (st, self.unit_path))
             if mode == "replace_old":
                 old.append(lines[i])
-            elif mode in ("replace_new", "before"):
+            elif mode in ("replace_new", "before", "mapcollect"):
                 new.append(lines[i])
             else:
                 cur.append(lines[i])
             i += 1
         for k in loops:
             loops[k]["text"] = "\n".join(loops[k].pop("_buf"))
-        return "\n".join(contract), {"loops": loops, "repls": repls, "sigsub": sigsub, "befores": befores, "annotates": annotates, "desugars": desugars, "rewrites_all": rewrites_all, "rewrites_rx": rewrites_rx,
+        return "\n".join(contract), {"loops": loops, "repls": repls, "sigsub": sigsub, "befores": befores, "annotates": annotates, "desugars": desugars, "rewrites_all": rewrites_all, "rewrites_rx": rewrites_rx, "map_collects": map_collects,
                                     "places": {k: "\n".join(v) for k, v in places.items()}}, i, term
 
     def vac(self, contract, ident=None):
